@@ -124,6 +124,14 @@ func PlayGrid(tier string) []*Config {
 	add(cfg([]int64{4, 4, 4, 4, 4}, 0, 1, 3, 0, false, 0, "no", "sv:1,0,0,1,1", 2, 0, "standard", "classes"))
 	add(cfg([]int64{3, 3, 3, 3, 3, 3}, 0, 1, 2, 0, true, 1, "pot", "royal52", 2, 0, "standard", "classes"))
 
+	// (D) decks that fit the hand exactly (every card is dealt by the river) or with one card to spare
+	for _, d := range []string{"f52:12", "f52:13", "r52:12", "t36:12"} {
+		add(cfg([]int64{3, 3}, 0, 1, 2, 0, false, 0, "no", d, 2, 0, "standard", "classes"))
+	}
+	add(cfg([]int64{2, 3, 2}, 1, 1, 2, 0, false, 1, "no", "f52:14", 2, 0, "standard", "classes"))
+	add(cfg([]int64{3, 2}, 0, 1, 2, 0, false, 0, "no", "f52:16", 4, 2, "standard", "classes"))
+	add(cfg([]int64{2, 2, 2, 2, 2, 2, 2}, 0, 1, 2, 0, false, 0, "no", "f36", 4, 2, "short", "classes"))
+
 	if tier != "thorough" {
 		return out
 	}
